@@ -115,15 +115,17 @@ def run_spec(spec, points, tier, visit, quick_slice=0, honesty=False, want_steps
     real = spec[0] == 'real'
     dpt = jets.depth(spec[1]) if real else jets.depth(spec[2])
     deep = real and dpt >= 3
-    mid = tier == 'thorough' and dpt == 2 and not (real and spec[1][0] == 'u' and spec[1][2][0] == 's')
+    mid = tier == 'thorough' and dpt == 2 and not (real and spec[1][0] == 'u' and spec[1][2][0] == 's') and \
+        not (real and spec[1] in P.STATIONARY)
     if deep:      # depth-3 chains: 5-point sub-pool and orders {1, 2, 4, 6}
         combs = [c for c in combs if c.x in (0.05, 0.75, 4.0, 100.0, -2.0)]
     elif mid:     # depth-2 compositions / binaries: 6-point sub-pool and orders {1, 2, 3, 4, 6, 8}
         combs = [c for c in combs if c.x in (1e-3, 0.3, 1.5, 20.0, -0.3, -20.0)]
     methods = cm.METHODS if real else ['central', 'forward', 'backward']
     ncalls = 0
-    d1 = tier == 'thorough' and ((real and jets.depth(spec[1]) <= 1) or (spec[0] == 'rot' and jets.depth(spec[2]) <= 1))
-    q1 = tier == 'quick' and real and jets.depth(spec[1]) <= 1 and fw.h64(spec) % 4 == quick_slice
+    stat = real and spec[1] in P.STATIONARY
+    d1 = tier == 'thorough' and ((real and jets.depth(spec[1]) <= 1) or (spec[0] == 'rot' and jets.depth(spec[2]) <= 1) or stat)
+    q1 = tier == 'quick' and real and ((jets.depth(spec[1]) <= 1 and fw.h64(spec) % 4 == quick_slice) or stat)
     for method in methods:
         gens = [('default', {})]
         if d1:
